@@ -18,10 +18,11 @@ ANCHORS = ["bitarray.py::BitArray.pack", "bitarray.py::BitArray.unpack", "bitarr
 BITS = [1, 2, 4, 8, 16, 32, 64]
 DTS = ["int8", "int16", "int32", "int64", "uint8", "uint16", "uint32", "uint64", ">i8", ">u8", ">i4", ">u2"]      # also non-native byte order
 FLOOR_TAGS = ["b:%d" % b for b in BITS] + ["len:multiple", "len:multiple+1", "len:multiple-1", "len:<register", "w:1", "w:full", "w:mid", "style:rand", "style:ones", "style:alt",
-                                           "straddle", "twin", "wtype:numpy", "w*b:54..63", "huge"]
+                                           "straddle", "twin", "wtype:numpy", "w*b:54..63", "huge", "window-sizes-vary"]
 FLOOR_MONITORS = ["c13:unpack", "c13:getint", "c13:getlist", "c13:window", "c13:unpack-again"]
 FP_STRICT = True       # a floating-point event inside the library that the dense computation does not have is a violation (shard.FpMonitor)
 N_RANDOM = {"quick": 24000, "thorough": 200000}
+CONST_CAP = 2 ** 25      # sizes taken from the constants of the source (rtmon/codeconst.py): millions of packed values are cheap (vectorised oracle)
 
 
 def mk_case(b, dtype, vals, w, pos, order="uiwlw"):
@@ -105,7 +106,6 @@ def run(case):
     if arr.flags.writeable and L:
         arr[...] = arr[::-1].copy() if len(set(vals)) > 1 else np.array([(x + 1) % (2 ** b) for x in vals]).astype(arr.dtype)       # the caller reuses his input buffer: the packed array is a snapshot
         tags.append("input-reused")
-    exp_win = [sum(vals[i + j] << (b * j) for j in range(w)) for i in range(L - w + 1)]
 
     def obs_u():
         CTX.tick("c13:unpack")
@@ -146,7 +146,18 @@ def run(case):
             if not o.ok or o.value != e[k]:
                 return "packed[%s][%d] gives %s, expected %d" % (short(pos, 80), k, repr(o) if not o.ok else o.value, e[k])
 
+    wcalls = [0]
+
     def obs_w():
+        # successive window observations on the same packed object use different window sizes (case["wseq"]: the first one is w): what one
+        # call leaves behind on the object must not show in the next
+        w0 = case["w"]
+        wseq = [x for x in case.get("wseq", [w0]) if 1 <= x <= min(per, L)] or [w0]
+        w = wseq[wcalls[0] % len(wseq)]
+        wcalls[0] += 1
+        if wcalls[0] > 1 and w != wseq[0]:
+            tags.append("window-sizes-vary")
+        exp_win = [sum(vals[i + j] << (b * j) for j in range(w)) for i in range(L - w + 1)]
         CTX.tick("c13:window", w > 1)
         wt = case.get("wtype")
         w_ = w if not wt else np.dtype(wt).type(w)      # the window size as a numpy integer (what np.arange / rng.integers / a shape hand out)
@@ -215,6 +226,11 @@ def gen_case(rng, b, L, w=None, style=None, dtype=None):
     order = "".join(rng.sample("uiwl", 4)) + rng.choice(["w", "u", "l", ""])
     c = mk_case(b, dtype, values(rng, b, L, style), w, pos, order)
     c["style"] = style
+    if order.count("w") > 1 or rng.random() < 0.3:
+        # the same object is asked for windows of several sizes, smaller and larger ones after one another
+        top = min(per, L)
+        c["wseq"] = [w] + [rng.choice([top, max(1, w - 1), min(top, w + 1), rng.randint(1, top)]) for _ in range(2)]
+        c["order"] = order + "w" * rng.randint(1, 2)
     if rng.random() < 0.3:
         c["wtype"] = rng.choice(["int64", "int32", "intp", "uint64", "int16"])      # types that hold the array length (numpy scalar arithmetic with a narrower type overflows by numpy's own rules)
     if rng.random() < 0.25:
@@ -272,9 +288,11 @@ def const_case(rng, tier, s, form):
         if n < 1:
             return None
         if n > 60000:
-            if n > 2 ** 25 or b == 64:
-                return None
-            return {"huge": True, "b": b, "w": rng.randint(1, per), "n": n}
+            # formula-generated values, vectorised oracle: one case per bit width, the widest window and a random one
+            if form == "cells":
+                return None if s * 64 > 2 ** 25 else [{"huge": True, "b": b_, "w": rng.choice([64 // b_, rng.randint(1, 64 // b_)]), "n": s * (64 // b_) + d_}
+                                                       for b_ in BITS if b_ != 64 for d_ in (0, 1)]
+            return None if n > 2 ** 25 else [{"huge": True, "b": b_, "w": w_, "n": n} for b_ in BITS if b_ != 64 for w_ in sorted({64 // b_, rng.randint(1, 64 // b_)})]
         return gen_case(rng, b, n)
     L = rng.choice([s + 3, 2 * s + 1, s + per]) if form == "emptyrun" else rng.choice([7, s, s + 1, 3 * per + 2])
     if L > 60000 or s > 60000:
